@@ -3,7 +3,7 @@ the expected document structure, and the parser of utapdump's document dump into
 
 Every label carries a unique marker (an integer constant, or a marked identifier) so that "which label ended up on which
 element" can be read off the dump without comparing expression text."""
-import re
+import zlib, re
 
 XESC = lambda t: t.replace('&', '&amp;').replace('<', '&lt;').replace('>', '&gt;')
 
@@ -192,18 +192,25 @@ def params_text(T):
     return ', '.join({'val': 'int %s', 'ref': 'int &%s', 'cval': 'const int %s', 'cref': 'const int &%s'}[k] % n for n, k in T['params'])
 
 
+def rng_pad(M, name):
+    """white space around the text of a <name> element, as indenting serialisers write it (deterministic per name)"""
+    h = zlib.crc32(name.encode()) % 5
+    return [name + ' ', '\n      ' + name + '\n    ', ' ' + name, '\t' + name + ' \t', name][h]
+
+
 def render_xml(M, rng=None):
     out = ['<?xml version="1.0" encoding="utf-8"?>\n<nta>\n<declaration>%s</declaration>\n' % XESC(global_decl(M))]
     kmap = {'select': 'select', 'guard': 'guard', 'sync': 'synchronisation', 'update': 'assignment', 'prob': 'probability'}
     for T in M.templates:
-        out.append('<template>\n<name>%s</name>\n' % T['name'])
+        pad = (lambda n: rng_pad(M, n)) if getattr(M, 'pad_names', False) else (lambda n: n)
+        out.append('<template>\n<name>%s</name>\n' % pad(T['name']))
         if T['params']:
             out.append('<parameter>%s</parameter>\n' % XESC(params_text(T)))
         out.append('<declaration>%s</declaration>\n' % ''.join('int %s;\n' % v for v in T['decl']))
         for l in T['locs']:
             out.append('<location id="%s" x="0" y="0">' % l['id'])
             if l['name']:
-                out.append('<name>%s</name>' % l['name'])
+                out.append('<name>%s</name>' % pad(l['name']))
             labs = []
             if l['inv'] is not None:
                 labs.append('<label kind="invariant">%s</label>' % XESC(ltext(M, 'inv', l['inv'])))
@@ -255,6 +262,8 @@ def render_xta(M):
             else:
                 sts.append(s + (' { %s }' % inv if inv else ''))
         out.append('state ' + ', '.join(sts) + ';\n')
+        if T['bps']:
+            out.append('branchpoint ' + ', '.join('_' + b for b in T['bps']) + ';\n')
         c = [loc_name(T, l['id']) for l in T['locs'] if l['committed']]
         u = [loc_name(T, l['id']) for l in T['locs'] if l['urgent']]
         if c: out.append('commit ' + ', '.join(c) + ';\n')
@@ -268,7 +277,7 @@ def render_xta(M):
                 for k, m in e['labels']:
                     labs += {'select': 'select %s; ', 'guard': 'guard %s; ', 'sync': 'sync %s; ', 'update': 'assign %s; ', 'prob': 'probability %s; '}[k] % ltext(M, k, m)
                 # the chained shorthand "A -> B { }, -> C { }" repeats the source of the previous transition (it has no probability section)
-                chained = prev == e['src'] and not any(k == 'prob' for k, _ in e['labels']) and (hash((T['name'], ei)) % 2 == 0)
+                chained = prev == e['src'] and not any(k == 'prob' for k, _ in e['labels']) and (zlib.crc32(('%s/%d' % (T['name'], ei)).encode()) % 2 == 0)
                 es.append('%s%s %s { %s}' % ('' if chained else loc_name(T, e['src']) + ' ', '->' if e['control'] else '-u->', loc_name(T, e['dst']), labs))
                 prev = e['src']
             out.append('trans ' + ',\n'.join(es) + ';\n')
